@@ -2,7 +2,7 @@
     split.  Statements only; proofs in Proofs/StrEscape.v, StrSplit.v,
     StrTotal.v, StrPieces.v.  Everything holds for EVERY instantiation of the
     Unicode classes (printable, whitespace, word characters). *)
-From PP Require Import Doc PyStr PyLit Consts Printers StrEscape StrSplit StrTotal StrPieces.
+From PP Require Import Doc PyStr PyLit Consts Printers Sem StrEscape StrSplit StrTotal StrPieces StrLayout.
 
 (** escape_str_for_quote - repr() followed by the textual str.replace
     re-quoting - is the character-by-character escaping for the wanted quote *)
@@ -54,6 +54,34 @@ Theorem C02_pieces :
        (assemble printable is_space_u is_linebreak p q lines).
 Proof. exact eval_str_pieces. Qed.
 Print Assumptions C02_pieces.
+
+(** End to end at the engine level: wherever the string printer's document is
+    laid out - inside any layout of any enclosing document (premise of
+    Sem.L_ctxs), at any indentation, column, page width, ribbon, for every
+    evaluator of the engine run - the text of that part of the stream, line
+    breaks and indentation removed, is exactly the literal pieces
+    prefix q escape(l_k) q  in order, possibly inside one pair of parentheses
+    or the subclass call  Name( ... ); the l_k are non-empty and concatenate
+    to the value, and each literal denotes its l_k (C02_escape_roundtrip). *)
+Theorem C02_layout_text :
+  forall printable sp isw lb (evs : strp -> Z -> Z -> Z -> Z -> doc) w rw p indent column page_width ribbon_width,
+  exists lines q,
+    (q = SQ \/ q = DQ) /\ concat lines = sp_s p /\ lines <> [] /\
+    (Forall (fun l => l <> []) lines \/ (lines = [[]] /\ sp_s p = [])) /\
+    let lits := concat (map (literal_text printable (sp_bytes p) q) lines) in
+    forall m i c o c',
+      Lay evs w rw m i c (eval_str printable sp isw lb p indent column page_width ribbon_width) o c' ->
+      otext o = wrapT p lits \/ otext o = lits \/ otext o = [40%N] ++ lits ++ [41%N].
+Proof. exact str_layout_text. Qed.
+Print Assumptions C02_layout_text.
+
+(** the general fact behind it: a document whose choices all carry the same
+    text on both sides has that text in every one of its layouts *)
+Theorem C02_text_of_every_layout :
+  forall (evs : strp -> Z -> Z -> Z -> Z -> doc) w rw m i c d o c',
+    Lay evs w rw m i c d o c' -> agree d -> otext o = dtext d.
+Proof. exact lay_text. Qed.
+Print Assumptions C02_text_of_every_layout.
 
 (** Non-vacuity / the repaired defect: an empty string with no width left is
     one piece (before fix 20c117b the evaluator returned an empty document). *)
